@@ -199,25 +199,14 @@ func runC03_2(c *Ctx) {
 	codeM := p.MethodObj("github.com/henrylee2cn/goutil/status", "Status", "Code")
 	notAllowed := p.ConstInt(Root, "CodeMtypeNotAllowed")
 	found := false
-	for _, b := range handle.Blocks {
-		ifi, ok := b.Instrs[len(b.Instrs)-1].(*ssa.If)
-		if !ok {
-			continue
-		}
-		cv, neg := stripNot(ifi.Cond)
-		bo, ok := cv.(*ssa.BinOp)
-		if !ok || bo.Op != token.EQL {
-			continue
-		}
-		call, ok := bo.X.(*ssa.Call)
-		k, okc := ConstIntOf(bo.Y)
+	for _, ee := range EqEdges(handle) {
+		call, ok := ee.X.(*ssa.Call)
+		k, okc := ConstIntOf(ee.Y)
 		if !ok || !okc || CalleeObj(call) != codeM || k != notAllowed {
 			continue
 		}
-		t := b.Succs[0]
-		if neg {
-			t = b.Succs[1]
-		}
+		t := ee.Eq
+		ifi := ee.If
 		found = true
 		hs := p.ReachableFromBlock(t, func(i ssa.Instruction) bool {
 			return IsCallTo(i, p.MethodObj(Root, "handlerCtx", "handleCall"), p.MethodObj(Root, "handlerCtx", "handleReply"), p.MethodObj(Root, "handlerCtx", "handlePush"))
